@@ -98,7 +98,10 @@ class SafeAtoms(dict):
         dict.__init__(self)
         for key, value in atoms.items():
             if isinstance(value, str):
-                self[key] = value.replace('"', '\\"')
+                # a record is one line: CR / LF from the request (decoded
+                # path, basic-auth user name, ...) are written escaped
+                self[key] = value.replace('"', '\\"').replace(
+                    '\n', '\\n').replace('\r', '\\r')
             else:
                 self[key] = value
 
